@@ -51,15 +51,25 @@ Holds(ev) == Elems(ev.yes)
 \* a malformed record is trouble of the recorder, not a verdict about the code
 WellFormed(ev) == /\ ev.k \in Keys
                   /\ ev.cmd \in {"within", "intersects"}
-                  /\ Covered(ev)
-                  /\ Holds(ev) \subseteq live[ev.k] /\ NoDup(ev.yes)
+                  /\ \/ ev.e = "qb"
+                     \/ Covered(ev) /\ Holds(ev) \subseteq live[ev.k] /\ NoDup(ev.yes)
 
 \* at most a dozen elements of a (possibly huge) set of ids, for the report
 Sample(S) == IF S = {} THEN {} ELSE LET m == CHOOSE x \in S : \A y \in S : x <= y
                                      IN  LET T == {x \in S : x < m + 400} IN
                                          IF Cardinality(T) <= 12 THEN T ELSE {x \in T : Cardinality({y \in T : y < x}) < 12}
 
-Defects(ev) == IF ev.sparse = 0 THEN ExactDefects(ev.res, Holds(ev)) ELSE ThinnedDefects(ev.res, Holds(ev))
+\* "qb": a search whose area is a NAMED cell (TILE x y z, QUADKEY k, HASH h).  The name denotes the rectangle its public
+\* definition gives (computed by the recorder, not asked from the server): res is what the search with the name
+\* returned, yes what the same search returned for that rectangle moved inwards by a millionth of its span, tested
+\* what it returned for the rectangle moved outwards.  yes \subseteq res \subseteq tested, whatever the rounding.
+Named(ev) == ev.e = "qb"
+NamedLost(ev) == Elems(ev.yes) \ Elems(ev.res)
+NamedInvented(ev) == Elems(ev.res) \ Elems(ev.tested)
+NamedDefects(ev) == (IF NamedLost(ev) = {} THEN {} ELSE {"lost"}) \cup (IF NamedInvented(ev) = {} THEN {} ELSE {"invented"})
+
+Defects(ev) == IF Named(ev) THEN NamedDefects(ev)
+               ELSE IF ev.sparse = 0 THEN ExactDefects(ev.res, Holds(ev)) ELSE ThinnedDefects(ev.res, Holds(ev))
 
 Init == /\ l = 1 /\ live = Empty /\ nq = 0 /\ nrej = 0 /\ nbad = 0
         /\ TLCSet(1, 1) /\ TLCSet(2, 0) /\ TLCSet(3, 0) /\ TLCSet(4, 0)
@@ -73,10 +83,11 @@ Report(ev) ==
   ELSE IF Defects(ev) # {}
   THEN PrintT(<<"REJ", ToJson([line |-> l, q |-> ev.q, run |-> ev.run, cmd |-> ev.cmd, sparse |-> ev.sparse,
                                why |-> Defects(ev),
-                               lost |-> Sample(IF ev.sparse = 0 THEN Lost(ev.res, Holds(ev)) ELSE {}),
-                               nlost |-> IF ev.sparse = 0 THEN Cardinality(Lost(ev.res, Holds(ev))) ELSE 0,
-                               invented |-> Sample(Invented(ev.res, Holds(ev))),
-                               ninvented |-> Cardinality(Invented(ev.res, Holds(ev))),
+                               lost |-> Sample(IF Named(ev) THEN NamedLost(ev) ELSE IF ev.sparse = 0 THEN Lost(ev.res, Holds(ev)) ELSE {}),
+                               nlost |-> IF Named(ev) THEN Cardinality(NamedLost(ev))
+                                         ELSE IF ev.sparse = 0 THEN Cardinality(Lost(ev.res, Holds(ev))) ELSE 0,
+                               invented |-> Sample(IF Named(ev) THEN NamedInvented(ev) ELSE Invented(ev.res, Holds(ev))),
+                               ninvented |-> Cardinality(IF Named(ev) THEN NamedInvented(ev) ELSE Invented(ev.res, Holds(ev))),
                                n |-> Cardinality(live[ev.k]), holds |-> Cardinality(Holds(ev))])>>)
   ELSE TRUE
 
@@ -89,7 +100,7 @@ Consume ==
                   [] ev.e = "drop"   -> [live EXCEPT ![ev.k] = {}]
                   [] ev.e = "rename" -> [live EXCEPT ![ev.to] = live[ev.k], ![ev.k] = {}]
                   [] OTHER           -> live
-     /\ IF ev.e = "q"
+     /\ IF ev.e \in {"q", "qb"}
         THEN /\ Report(ev)
              /\ nq' = nq + 1
              /\ nbad' = nbad + (IF WellFormed(ev) THEN 0 ELSE 1)
